@@ -1039,6 +1039,8 @@ class Fxp():
 
         # scaling reconversion
         if val is not None and self.scaled:
+            if isinstance(val, (np.ndarray, np.generic)) and val.dtype.kind == 'u':
+                val = val.astype(np.int64)  # unsigned 64 bits can't be combined with a negative scale or bias
             val = val * self.scale + self.bias
         return val
 
